@@ -55,6 +55,8 @@ static bool life_filter(char const* s)
     case 'b': return s[1] == 'o';                                              // body.*
     case 'r': return s[1] == 't';                                              // rt.*
     case 'l': return s[1] == 'i';                                              // life.*
+    case 'n': return s[1] == 'e';                                              // newq.*
+    case 'h': return s[1] == 'e';                                              // heap.*
     case 'x': return true;                                                     // harness notes
     default: return false;
     }
